@@ -11,17 +11,28 @@ Theorem C13_extrapolate_steps_keeps_prefix : forall d n, exists tl, extrapolate_
 Proof. exact extrapolate_steps_keeps_prefix. Qed.
 Theorem C13_extrapolate_with_bound_keeps_prefix : forall d delta n d', extrapolate_with_bound d delta n = Some d' -> exists tl, d' = d ++ tl.
 Proof. exact extrapolate_with_bound_keeps_prefix. Qed.
-Theorem C13_values_inside_prefix_unchanged : forall d h delta, wf_dmin d -> delta < lastN d ->
+Theorem C13_values_inside_prefix_unchanged : forall d h delta, wf_dmin d -> delta <= lastN d ->
   curve_na (extrapolate d h) delta = curve_na d delta.
 Proof. exact extrapolate_unchanged_inside_horizon. Qed.
-Theorem C13_values_inside_prefix_unchanged_steps : forall d n delta, wf_dmin d -> delta < lastN d ->
+Theorem C13_values_inside_prefix_unchanged_steps : forall d n delta, wf_dmin d -> delta <= lastN d ->
   curve_na (extrapolate_steps d n) delta = curve_na d delta.
 Proof. exact extrapolate_steps_unchanged_inside. Qed.
 (* extrapolation only tightens, up to the extrapolated horizon (no super-additivity needed) *)
 Theorem C13_only_tightens_within_horizon : forall d h delta, wf_dmin d ->
   delta <= lastN (extrapolate d h) -> curve_na (extrapolate d h) delta <= curve_na d delta.
 Proof. exact extrapolate_only_tightens_wf. Qed.
-(* known finding C13-beyond-horizon: beyond the horizon the inequality fails *)
+(* the same for extrapolate_steps, whose result may end in a plateau (e.g. [0; 2] extended to 13 entries): the last entry
+   of the extrapolated vector is included since the repair of Curve::number_arrivals at exact multiples of the last entry
+   (this was the "last entry of a plateau-ended extrapolated vector" part of the finding C13-beyond-horizon) *)
+Theorem C13_only_tightens_within_horizon_steps : forall d n delta, wf_dmin d ->
+  delta <= lastN (extrapolate_steps d n) -> curve_na (extrapolate_steps d n) delta <= curve_na d delta.
+Proof. exact extrapolate_steps_only_tightens_wf. Qed.
+Theorem C13_plateau_ended_horizon_repaired :
+  lastN (extrapolate_steps [0; 2] 13) = 12 /\ plateau_end (extrapolate_steps [0; 2] 13) /\
+  curve_na (extrapolate_steps [0; 2] 13) 12 = 12 /\ curve_na [0; 2] 12 = 12.
+Proof. exact plateau_ended_horizon_repaired. Qed.
+(* known finding C13-beyond-horizon (remaining part): beyond the horizon the inequality fails, because the two vectors
+   repeat in different blocks *)
 Theorem C13_tightening_fails_beyond_horizon_refuted :
   exists d h delta, realisable d /\ lastN (extrapolate d h) < delta /\ curve_na d delta < curve_na (extrapolate d h) delta.
 Proof. exact tightening_fails_beyond_horizon_refuted. Qed.
@@ -36,7 +47,7 @@ Proof. exact extrapolating_curve_bounds_prefix_sequences. Qed.
 Theorem C13_extrapolate_reaches_horizon : forall d h, wf_dmin d -> (2 <= length d)%nat -> h <= lastN (extrapolate d h).
 Proof. exact extrapolate_reaches. Qed.
 (* ExtrapolatingCurve answers like an eagerly extrapolated Curve *)
-Theorem C13_lazy_equals_eager : forall d delta H, wf_dmin d -> (2 <= length d)%nat -> delta + 1 <= H ->
+Theorem C13_lazy_equals_eager : forall d delta H, wf_dmin d -> (2 <= length d)%nat -> delta <= H ->
   extrap_na d delta = curve_na (extrapolate d H) delta.
 Proof. exact extrap_na_is_eager. Qed.
 (* the shared cache is invisible: for every history of queries (number_arrivals / steps) on clones sharing
